@@ -15,6 +15,8 @@
 package compress
 
 import (
+	"math"
+
 	"github.com/golang/snappy"
 	"github.com/influxdata/influxdb/tsdb/engine/tsm1"
 	"github.com/openGemini/openGemini/lib/bufferpool"
@@ -40,7 +42,8 @@ func (rle *RLE) SameValueEncoding(in []byte, out []byte) ([]byte, error) {
 	size := uint16(len(values))
 	out = append(out, uint8(size>>8), uint8(size&0xff))
 
-	if values[0] == 0 {
+	// only +0.0 (all bits zero) is left out; -0.0 keeps its sign
+	if math.Float64bits(values[0]) == 0 {
 		return out, nil
 	}
 
